@@ -78,16 +78,17 @@ Theorem C10_duplicate_is_noop :
 Proof. exact duplicate_is_noop. Qed.
 Print Assumptions C10_duplicate_is_noop.
 
-(* the same for SpawnChild, whose only trace is the entry it writes into the
-   caller's children map (no change when the incumbent is the caller's child) *)
+(* the same for SpawnChild (as repaired by D21: the children-map entry is
+   written only after Registry.insert succeeded): no trace at all besides the
+   ActorDuplicateIdEvent — every process record, every children map (the
+   caller's included), the Producer counts, the delivery log are as they were *)
 Theorem C10_duplicate_child_is_noop :
   forall (s : sst) (p i : id),
     is_live s i = true -> is_live s p = true -> busy s p = false ->
     let s' := sstep s (OSpawnChild p i) in
-    procs s' = procs s /\ runs s' = runs s /\ recvd s' = recvd s /\ gate s' = gate s /\ bad s' = bad s /\
-    dups s' i = S (dups s i) /\ (forall j, j <> i -> dups s' j = dups s j) /\
-    (forall q, q <> p -> kids s' q = kids s q) /\ kids s' p = set_add i (kids s p) /\
-    (mem i (kids s p) = true -> kids s' p = kids s p).
+    procs s' = procs s /\ kids s' = kids s /\ runs s' = runs s /\ recvd s' = recvd s /\
+    gate s' = gate s /\ bad s' = bad s /\
+    dups s' i = S (dups s i) /\ (forall j, j <> i -> dups s' j = dups s j).
 Proof. exact duplicate_child_is_noop. Qed.
 Print Assumptions C10_duplicate_child_is_noop.
 
